@@ -463,8 +463,9 @@ fn generate(tier: &str, seed: u64, emit: &mut dyn FnMut(Case)) {
         let mut c = mk(&[&a, &asb], ops, "chain", false); c.tags.push(("chain".into(), len.to_string())); emit(c);
     } } }
     // 5d. directed "retry": a populated, restored layer; a call that fails (strategy / update / create after recreate / migrate
-    //     callback fails, an exec.d source is missing, the metadata file is not a document), the same call again, then the
-    //     call with every strategy; restore; keep
+    //     callback fails, an exec.d source is missing, the metadata file is not a document; metadata unparsable as the layer's
+    //     type x ReplaceMetadata x {strategy fails, update fails} with and without a restore before it), the same call again,
+    //     then the call with every strategy x migration (recreate / replace); restore; keep
     let gone = format!("5_~!~!{}=~!-!-", hex(b"gone"));
     let failing: Vec<(&str, Vec<String>)> = vec![
         ("strategy", vec![h(&a, "111", "V", "f", "r", &rich("5_~"), &upd("6_~"))]),
@@ -473,6 +474,12 @@ fn generate(tier: &str, seed: u64, emit: &mut dyn FnMut(Case)) {
         ("execd", vec![h(&a, "111", "V", "u", "r", &rich("5_~"), &gone)]),
         ("migrate", vec![h(&a, "111", "G", "u", "r", &small("~"), &upd("~_7")), "R".into(), h(&a, "111", "V", "k", "f", &rich("5_~"), &upd("6_~"))]),
         ("broken", vec![format!("B.{a}"), h(&a, "111", "V", "k", "r", &rich("5_~"), &upd("6_~"))]),
+        // the migration callback asks for a replacement, a callback consulted after it fails: the replacement must be on disk
+        // after the failed call, and the next call must not migrate again
+        ("replace-strategy", vec![h(&a, "111", "G", "u", "r", &small("~"), &upd("~_7")), "R".into(), h(&a, "111", "V", "f", "p8_~", &rich("5_~"), &upd("6_~"))]),
+        ("replace-update", vec![h(&a, "111", "G", "u", "r", &small("~"), &upd("~_7")), "R".into(), h(&a, "111", "V", "u", "p8_~", &rich("5_~"), "f")]),
+        ("replace-strategy-typed", vec![h(&a, "110", "G", "u", "r", &small("~"), &upd("~_7")), h(&a, "111", "V", "f", "p8_~", &rich("5_~"), &upd("6_~"))]),
+        ("replace-update-typed", vec![h(&a, "110", "G", "u", "r", &small("~"), &upd("~_7")), h(&a, "111", "V", "u", "p8_~", &rich("5_~"), "f")]),
     ];
     for (fname, fops) in &failing { for st in ["k", "u", "r"] { for mg in ["r", "p3_~"] {
         let mut ops = vec![h(&a, "111", "V", "k", "r", &rich("4_~"), &upd("2_~")), "R".into()];
